@@ -2,13 +2,14 @@
 import itertools
 
 from engine.runner import mk_case
-from props.C03 import PARTS, DOCS as DOCS3
+from props.C03 import PARTS, DOCS as DOCS3, DEEP_DOC, DEEP_QUICK, DEEP_MORE
 
 U = "Union[int, bool, None, str]"
 DOCS = dict(DOCS3)
 DOCS.update({
     "dc": "{'p': {'k': u1, 1: u2}, 'q': {'j': u3}, 'r': u1, 's': [u2, u3], 't': {}}",
     "dl2": "[{'k': u1}, [u2, u3], {'j': u2, 1: u3}, u1]",
+    "d6": DEEP_DOC,
 })
 MODS = [None, "length", "dtype", "map_keys", "map_values"]
 MULTIS = [None, "first", "last", "single", "all"]
@@ -16,7 +17,8 @@ MULTIS = [None, "first", "last", "single", "all"]
 
 def BOUNDS(ctx):
     return {
-        "paths": "C03's skeletons (subset) over C03's documents plus two modifier documents; lengths 1-3",
+        "paths": "C03's skeletons (subset) over C03's documents plus two modifier documents; lengths 1-3, and a deep family of 4-7 parts "
+                 "over a six-level document with five-item lists",
         "modifiers": "every (datum modifier, multiplicity modifier) pair of {none,length,dtype,map_keys,map_values} x "
                      "{none,first,last,single,all}, both application orders, return_paths True and False",
         "definedness": "the harness evaluates with the reference model whether the datum modifier is defined for every selected "
@@ -157,6 +159,15 @@ def cases(ctx):
     out = []
     for sh, d in TRUTH_SHAPES:
         out.append(truth_case(sh, d, L))
+    # deep family: 4-7 parts over C03's six-level document with five-item lists
+    for sh in (DEEP_QUICK[:4] if ctx.quick else DEEP_QUICK + DEEP_MORE):
+        case = truth_case(sh, "d6", L)
+        case["id"] = case["id"].replace("c04.truth.", "c04.truthdeep.")
+        out.append(case)
+    deep_mods = [(("a", "b", "c", "L"), "dtype", "last"), (("a", "b", "c", "1", "d", "L"), None, "first"), (("l", "4", "L"), "length", "all"),
+                 (("X", "X", "X", "X"), "dtype", None), (("a", "b", "c", "1", "d", "4", "M"), "length", "single")]
+    for sh, mod, multi in (deep_mods[:3] if ctx.quick else deep_mods):
+        out.append(mod_case(sh, "d6", mod, multi, L))
     combos = list(itertools.product(MODS, MULTIS))
     if ctx.quick:
         for n, (mod, multi) in enumerate(combos):
